@@ -384,6 +384,21 @@ func s20() scenario {
 		a.add("asn1-to-plain", plain, err)
 		back, err := sm2.PlainCiphertext2ASN1(ct, sm2.C1C3C2)
 		a.add("plain-to-asn1", back, err)
+		// compressed C1 and both splicing orders through the rarely used converters, then the default options again
+		ctc, err := sm2.Encrypt(&engine.DetReader{Lane: lane + 6}, &key.PublicKey, msg[:20], sm2.NewPlainEncrypterOpts(sm2.MarshalCompressed, sm2.C1C2C3))
+		a.add("encrypt-compressed-c1c2c3", ctc, err)
+		if err == nil {
+			adj, err := sm2.AdjustCiphertextSplicingOrder(ctc, sm2.C1C2C3, sm2.C1C3C2)
+			a.add("adjust-to-c1c3c2", adj, err)
+			adj2, err := sm2.AdjustCiphertextSplicingOrder(adj, sm2.C1C3C2, sm2.C1C2C3)
+			a.add("adjust-back", adj2, err)
+			pt3, err := key.Decrypt(nil, adj, nil)
+			a.add("decrypt-adjusted", pt3, err)
+			asn, err := sm2.PlainCiphertext2ASN1(ctc, sm2.C1C2C3)
+			a.add("compressed-to-asn1", asn, err)
+		}
+		ct4, err := sm2.Encrypt(&engine.DetReader{Lane: lane + 7}, &key.PublicKey, msg[:20], nil)
+		a.add("encrypt-default-again", ct4, err)
 		// key exchange, both roles in this thread
 		ini, err1 := sm2.NewKeyExchange(key, &peer.PublicKey, uid, msg[:5], 48, true)
 		rsp, err2 := sm2.NewKeyExchange(peer, &key.PublicKey, msg[:5], uid, 48, true)
